@@ -47,7 +47,7 @@ Points == <<
   "-1e400", "-1e39", "-3.4028235e38",
   "-9223372036854775809", "-9223372036854775808", "-2147483649", "-2147483648",
   "-32769", "-32768", "-129", "-128", "-10", "-1", "0", "1e-50", "0.1", "0.5", "1", "1.5", "2", "3",
-  "5", "7", "10", "15", "31", "100", "127", "128", "255", "256", "300", "1000", "32767", "32768", "65535", "65536",
+  "4", "5", "6", "7", "10", "15", "31", "100", "127", "128", "255", "256", "300", "1000", "32767", "32768", "65535", "65536",
   "16777217", "2147483647", "2147483648", "4294967295", "4294967296", "9007199254740993",
   "9223372036854775807", "9223372036854775808", "18446744073709551615", "18446744073709551616",
   "3.4028235e38", "3.5e38", "1e39", "1e400" >>
@@ -148,7 +148,9 @@ Lits == <<
   Lit("1_000", "string", "1000", "go", TRUE, "exact", "exact", "num", 0, TRUE),
   \* 75  the empty string (a value of typed documents, headers and JSON bodies; a form or path
   \*     value cannot carry it: the form parser drops empty values, the path filler refuses them)
-  St("", "plain") >>
+  St("", "plain"),
+  \* 76..77  the integers next to the range bound 5 ("just inside" / "just outside" of range=..5)
+  I("4"), I("6") >>
 
 NLits == Len(Lits)
 LitByText(t) == Lits[CHOOSE i \in 1..NLits : Lits[i].text = t /\ Lits[i].class # "string"]
@@ -365,6 +367,30 @@ Spellings == {"exact", "snake", "initial"}
 \* RoundTrip: a request struct whose every field value fits its kind, sent by the client helper with
 \* its path / form / header / json parts, is parsed back into an equal struct.
 Parts == {"path", "form", "header", "json"}
+\* One member of the request struct: kind k, tag options o, the client holds the value named by the
+\* literal l (which fits k).  The client helper turns the struct into a request, the server-side
+\* parser turns the request into a struct; the statement speaks about the pair, so an error is an
+\* error of either side.
+\*  - unconstrained, or the value satisfies options= / range=: the member comes back equal
+\*    (whatever else the tag says: optional, default=, `,string`; brackets decide at the bounds);
+\*  - the value is outside options= / range=: what travels is a document with a value outside the
+\*    declared constraint; the unmarshalling clause makes it fail on the server unless the client
+\*    refused the struct first - an error either way, never a silently different (clamped,
+\*    defaulted, dropped) value;
+\*  - outside, but the member is optional and held at its zero value: a client cannot tell "not
+\*    set" from zero, so it may leave the member out (server: absent optional = zero, the equal
+\*    struct) or send the zero (server: outside, must fail) - both are allowed.
+RTValue(k, l) == CASE k \in NumKinds -> NumVal(l, k) [] k = "bool" -> VBool(l.text) [] OTHER -> VStr(l.text)
+RTZero(k, l) == CASE k \in NumKinds -> HasValue(l) /\ l.at = "0" [] k = "bool" -> l.text = "false"
+                  [] k = "string" -> l.text = "" [] OTHER -> FALSE
+RoundTripAllowed(k, o, l) ==
+  LET v == RTValue(k, l)
+      \* the upper half of uint64: acceptance by the server is left open (see NumInto)
+      base == IF k \in {"uint64", "uint"} /\ HasValue(l) /\ Lt("9223372036854775807", l.at) THEN Either(v) ELSE Must(v)
+      unset == o.optional /\ RTZero(k, l)
+  IN IF OutsideRange(l, o) THEN (IF unset THEN Weaken(base) ELSE MustErrW("range"))
+     ELSE IF OutsideOptions(l, o) THEN (IF unset THEN Weaken(base) ELSE MustErrW("options"))
+     ELSE base
 
 \* --------------------------------------------------------------- sanity theorems (checked by TLC)
 \* over every (kind, options, document, source) that the generator enumerates
@@ -386,6 +412,11 @@ T_FitsMonotone(l) ==
   /\ (FitsInt(l, "uint16") => FitsInt(l, "uint32")) /\ (FitsInt(l, "uint32") => FitsInt(l, "uint64"))
   /\ (FitsInt(l, "uint8") => FitsInt(l, "int16")) /\ (FitsFloat(l, "float32") => FitsFloat(l, "float64"))
   /\ (FitsInt(l, "int64") => FitsInt(l, "int")) /\ (FitsInt(l, "uint") => FitsInt(l, "uint64"))
+T_RoundTrip(k, o, l, a) ==                   \* a request value is never silently replaced
+  /\ a.ok => a.val = RTValue(k, l) /\ a.alt = NoVal
+  /\ ((OutsideRange(l, o) \/ OutsideOptions(l, o)) /\ ~(o.optional /\ RTZero(k, l))) => IsMustErr(a)
+  /\ (~OutsideRange(l, o) /\ ~OutsideOptions(l, o)) => a.ok
+  /\ (o.options = {} /\ ~o.range.on) => (a.ok /\ (a.err => k \in {"uint64", "uint"}))
 T_PointsOrdered == \A i, j \in 1..Len(Points) : (i # j) => Points[i] # Points[j]
 
 =============================================================================
